@@ -5,11 +5,15 @@
 package revocation
 
 import (
+	"bytes"
 	"encoding/hex"
 	"encoding/json"
+	"errors"
 	"fmt"
+	"io"
 	"math"
 	mrand "math/rand"
+	"net/http"
 	"os"
 	"strconv"
 	"testing"
@@ -97,6 +101,54 @@ func TestVerifC19(t *testing.T) {
 		return "ok"
 	}
 
+	// the whole remote path: Verify(credential with a StatusList2021Entry) → download (fake HTTP client serving the mutant)
+	// → verify (validate, expand, signature stub) → store in SQL → bit(index).  State digest: the number of stored status
+	// list credentials must not change when the downloaded credential is rejected.
+	cs := newTestStatusList2021(t)
+	fake := &c19Doer{}
+	cs.client = fake
+	holderVC := func(index string) vc.VerifiableCredential {
+		var c vc.VerifiableCredential
+		_ = json.Unmarshal([]byte(`{"@context":["https://www.w3.org/2018/credentials/v1","https://w3id.org/vc/status-list/2021/v1"],"id":"did:web:example.com#1","type":["VerifiableCredential"],"issuer":"did:web:example.com","issuanceDate":"2024-01-01T00:00:00Z","credentialSubject":{"id":"did:web:holder.example.com"},
+"credentialStatus":{"id":"https://example.com/statuslist/did:web:example.com/1#`+index+`","type":"StatusList2021Entry","statusPurpose":"revocation","statusListIndex":"`+index+`","statusListCredential":"https://example.com/statuslist/did:web:example.com/1"}}`), &c)
+		return c
+	}
+	countRows := func() int64 {
+		var n int64
+		cs.db.Model(new(credentialRecord)).Count(&n)
+		return n
+	}
+	verifyPath := func(in string) string {
+		var w struct {
+			Status int
+			Body   string
+			Index  string
+		}
+		if json.Unmarshal([]byte(in), &w) != nil {
+			return "err:harness"
+		}
+		cs.db.Where("1 = 1").Delete(new(credentialRecord))
+		before := countRows()
+		fake.status, fake.body = w.Status, []byte(w.Body)
+		err := cs.Verify(holderVC(w.Index))
+		if err != nil {
+			if errors.Is(err, errRevoked) {
+				return "ok:revoked"
+			}
+			// a status list credential that was rejected by download/verify must not have been stored
+			var sub StatusList2021CredentialSubject
+			if _, verr := c19VerifyOnly(cs, w.Body, &sub); verr != nil && countRows() != before {
+				return "STATE-CHANGED-ON-ERROR"
+			}
+			return "err"
+		}
+		return "ok"
+	}
+	verifyIn := func(status int, body []byte, index string) string {
+		b, _ := json.Marshal(map[string]any{"Status": status, "Body": string(body), "Index": index})
+		return string(b)
+	}
+
 	replay, isReplay := c19ReadOps()
 	for _, op := range replay {
 		switch op["op"] {
@@ -111,6 +163,9 @@ func TestVerifC19(t *testing.T) {
 		case "x.revocation.statusListCredential":
 			in, _ := op["input"].(string)
 			o.explore("revocation.statusListCredential", in, func() string { return slcPath(in) })
+		case "x.revocation.Verify":
+			in, _ := op["input"].(string)
+			o.explore("revocation.Verify", in, func() string { return verifyPath(in) })
 		case "x.revocation.statusListEntry":
 			in, _ := op["input"].(string)
 			o.explore("revocation.statusListEntry", in, func() string { return entryPath(in) })
@@ -173,7 +228,7 @@ func TestVerifC19(t *testing.T) {
 		b := root.bytes()
 		return []byte(string(bytesReplace(b, "ENCODED", e)))
 	}
-	if res := slcPath(string(valid(enc))); res != "ok" {
+	if res := c19Guard(func() string { return slcPath(string(valid(enc))) }); res != "ok" {
 		t.Fatalf("valid status list credential is not accepted: %s", res)
 	}
 	run := func(b []byte, kind string) {
@@ -189,6 +244,30 @@ func TestVerifC19(t *testing.T) {
 		b, kind := m.mutate(valid(enc))
 		run(b, "rand:"+kind)
 	}
+	// full Verify path
+	if res := c19Guard(func() string { return verifyPath(verifyIn(200, valid(enc), "5")) }); res != "ok" {
+		t.Fatalf("valid status list credential is not accepted by Verify: %s", res)
+	}
+	runV := func(in, kind string) {
+		o.dist["slverify:"+kind]++
+		o.explore("revocation.Verify", in, func() string { return verifyPath(in) })
+	}
+	for _, st := range []int{0, 200, 204, 299, 300, 404, 500} {
+		for _, idx := range []string{"0", "5", "131071", "131072", "-1", "9223372036854775807", "9223372036854775808", "x", "", "1e3", " 5", "0x10"} {
+			runV(verifyIn(st, valid(enc), idx), "transport×index")
+		}
+	}
+	for _, e := range []string{short, empty, "", "A", "AAAA", "H4sIAAAAAAAA", enc[:len(enc)/2], enc + "A"} {
+		for _, idx := range []string{"0", "23", "24", "131071"} {
+			runV(verifyIn(200, valid(e), idx), "encodedList-variant×index")
+		}
+	}
+	jsystematic(valid(enc), func(b []byte, kind string) { runV(verifyIn(200, b, "5"), kind) })
+	for i := 0; i < nRand; i++ {
+		b, kind := m.mutate(valid(enc))
+		runV(verifyIn(200, b, []string{"5", "131071", "131072", "0"}[r.Intn(4)]), "rand:"+kind)
+	}
+
 	validEntry := `{"id":"https://example.com/statuslist/1#5","type":"StatusList2021Entry","statusPurpose":"revocation","statusListIndex":"5","statusListCredential":"https://example.com/statuslist/1"}`
 	runE := func(b []byte, kind string) {
 		in := string(b)
@@ -211,6 +290,32 @@ func TestVerifC19(t *testing.T) {
 			return "ok"
 		})
 	}
+}
+
+type c19Doer struct {
+	status int
+	body   []byte
+}
+
+func (f *c19Doer) Do(req *http.Request) (*http.Response, error) {
+	if f.status == 0 {
+		return nil, errors.New("connection refused")
+	}
+	return &http.Response{StatusCode: f.status, Header: http.Header{}, Body: io.NopCloser(bytes.NewReader(f.body))}, nil
+}
+
+// c19VerifyOnly says whether cs.verify accepts the body as a status list credential (used by the state-digest oracle)
+func c19VerifyOnly(cs *StatusList2021, body string, sub *StatusList2021CredentialSubject) (bool, error) {
+	var cred vc.VerifiableCredential
+	if err := json.Unmarshal([]byte(body), &cred); err != nil {
+		return false, err
+	}
+	s, err := cs.verify(cred)
+	if err != nil {
+		return false, err
+	}
+	*sub = *s
+	return true, nil
 }
 
 func bytesReplace(b []byte, old, new string) []byte {
